@@ -247,6 +247,7 @@ ROUND6 = {
  'C15': " The accept / reject decision of compile() for a grammar text after calls with the same or another text under arguments that make it fail (history pool).",
  'C16': " spec/OptPublish.tla: the order copy / analyse / publish / release in Grammar.optimized(); TLC proves AnalysedBeforeUse for the code's order and refutes early publication; the refuting schedule (thread 1 inside the left-recursion analysis, thread 2 entering) is forced onto the real code. Interlocking cycles over three rules are enumerated exhaustively.",
  'C18': " Real-pool scenarios with a user exception that pickles but does not unpickle, and with TatSu's own VisualPayload class where the function raises a genuine TypeError for one payload (same worker, same run, a later run).",
+ 'C19': " Sends and receives around model-building parses of grammars whose rule types are named like the queue's own classes, in a fresh interpreter.",
  'C20': " Styles derived (fmt, bold) from a style that was rendered and measured before must equal freshly constructed ones; spaces of category Zs in the repr round trip.",
 }
 for _pid, _t in ROUND6.items():
